@@ -8,6 +8,7 @@ What the source text says now is what Model/Video.lean runs and the property's b
 -/
 import ZxVerif.Lemmas.VideoX
 import ZxVerif.Props.C09
+set_option linter.unusedSimpArgs false
 namespace ZxVerif.C09X
 open ZxVerif.Video
 
@@ -65,7 +66,7 @@ theorem next_border_pixel_is_model (m : Machine) (t : Nat) :
     unfold Extracted.Video.nextBorderPixel nextBorderPixel
     rw [g1, g2, g3, e1, e2, c1, c2, c3, c4, c5, c6, d1, d2, d3]
     simp only [decide_eq_true_eq]
-    (repeat' split) <;> first | rfl | (exfalso; omega) | (simp only [Prod.mk.injEq]; omega)
+    (repeat' split) <;> first | (exfalso; omega) | (with_reducible rfl) | (simp only [Prod.mk.injEq, and_true, true_and]; omega)
   · have g1 : (geomOf .k128).clocks_first_pixel = 14362 := by decide
     have g2 : (geomOf .k128).clocks_line = 228 := by decide
     have g3 : (geomOf .k128).clocks_ula_beam_shift = 1 := by decide
@@ -74,7 +75,7 @@ theorem next_border_pixel_is_model (m : Machine) (t : Nat) :
     unfold Extracted.Video.nextBorderPixel nextBorderPixel
     rw [g1, g2, g3, e1, e2, c1, c2, c3, c4, c5, c6, d1, d2, d3]
     simp only [decide_eq_true_eq]
-    (repeat' split) <;> first | rfl | (exfalso; omega) | (simp only [Prod.mk.injEq]; omega)
+    (repeat' split) <;> first | (exfalso; omega) | (with_reducible rfl) | (simp only [Prod.mk.injEq, and_true, true_and]; omega)
 
 /-- **Beam position, from the source.** `next_border_pixel` as it stands in the source is the
 property's beam position for every frame clock on both machines: frame end exactly when the beam has
